@@ -44,15 +44,14 @@ void harness(void)
     C19_NAME(n10, c10);
     C19_NAME(n11, c11);
     __CPROVER_assume(0 <= ntab && ntab <= 2 && 0 <= da && da <= 1 && 0 <= db && db <= 1);
-    struct rshell_command ta[3], tb[3];
-    ta[0] = (struct rshell_command){n00, c19_rh_1, NULL};
-    ta[1] = (struct rshell_command){n01, c19_rh_1, NULL};
-    ta[2] = (struct rshell_command){NULL, NULL, NULL};
-    ta[na] = (struct rshell_command){NULL, NULL, NULL};
-    tb[0] = (struct rshell_command){n10, c19_rh_2, NULL};
-    tb[1] = (struct rshell_command){n11, c19_rh_2, NULL};
-    tb[2] = (struct rshell_command){NULL, NULL, NULL};
-    tb[nb] = (struct rshell_command){NULL, NULL, NULL};
+    /* exact-size tables (NA / NB commands + sentinel): stepping over the sentinel leaves the object */
+    struct rshell_command ta[NA + 1], tb[NB + 1];
+    if (NA >= 1) ta[0] = (struct rshell_command){n00, c19_rh_1, NULL};
+    if (NA >= 2) ta[1] = (struct rshell_command){n01, c19_rh_1, NULL};
+    ta[NA] = (struct rshell_command){NULL, NULL, NULL};
+    if (NB >= 1) tb[0] = (struct rshell_command){n10, c19_rh_2, NULL};
+    if (NB >= 2) tb[1] = (struct rshell_command){n11, c19_rh_2, NULL};
+    tb[NB] = (struct rshell_command){NULL, NULL, NULL};
     struct rshell_command_table tables[3] = {{ta, da}, {tb, db}, {NULL, 0}};
     tables[ntab] = (struct rshell_command_table){NULL, 0};
     char out[4];
